@@ -81,6 +81,18 @@ def reviewedIgnored : List String := [
   "Session_SetDHCPv4IPOffer: lock: defer h.mutex.Unlock()",
   "Session_SetDHCPv4IPOffer: lock: macEntry.Row.Lock()",
   "Session_SetDHCPv4IPOffer: lock: macEntry.Row.Unlock()",
+  "Host_UpdateLLMNRName: lock: host.MACEntry.Row.Lock()",
+  "Host_UpdateLLMNRName: lock: defer host.MACEntry.Row.Unlock()",
+  "Host_UpdateLLMNRName: log: Logger.Msg(\"updated llmnr name\").Struct(host.Addr).Struct(host.LLMNRName).Write()",
+  "Host_UpdateMDNSName: lock: host.MACEntry.Row.Lock()",
+  "Host_UpdateMDNSName: lock: defer host.MACEntry.Row.Unlock()",
+  "Host_UpdateMDNSName: log: Logger.Msg(\"updated mdns name\").Struct(host.Addr).Struct(host.MDNSName).Write()",
+  "Host_UpdateSSDPName: lock: host.MACEntry.Row.Lock()",
+  "Host_UpdateSSDPName: lock: defer host.MACEntry.Row.Unlock()",
+  "Host_UpdateSSDPName: log: Logger.Msg(\"updated ssdp name\").Struct(host.Addr).Struct(host.SSDPName).Write()",
+  "Host_UpdateNBNSName: lock: host.MACEntry.Row.Lock()",
+  "Host_UpdateNBNSName: lock: defer host.MACEntry.Row.Unlock()",
+  "Host_UpdateNBNSName: log: Logger.Msg(\"updated nbns name\").Struct(host.Addr).Struct(host.NBNSName).Write()",
   "Session_Capture: lock: h.mutex.Lock()",
   "Session_Capture: lock: defer h.mutex.Unlock()",
   "Session_Capture: log: if Logger.IsInfo() { Logger.Msg(\"captured\").MAC(\"mac\", mac).Write() }",
@@ -135,6 +147,10 @@ def reviewedTranslated : List String := [
   "Host_UpdateDHCP4Name",
   "Session_DHCPv4Update",
   "Session_SetDHCPv4IPOffer",
+  "Host_UpdateLLMNRName",
+  "Host_UpdateMDNSName",
+  "Host_UpdateSSDPName",
+  "Host_UpdateNBNSName",
   "Session_Capture",
   "Session_Release"]
 
